@@ -26,6 +26,7 @@ CONSTANTS NSheets,       \* number of sheets of the model workbook
           MaxR, MaxC,    \* window in which the model places cells
           Values,        \* value texts the model may place (non-empty sequences of code points)
           MaxCells,      \* at most this many cells in the whole workbook
+          Overwrite,     \* TRUE = the model also sets a cell that already has a value
           FreeAlphabet,  \* characters fed in free-input mode ({} switches the mode off)
           FreeLen,       \* length bound of free input
           Escape,        \* TRUE = intended design (the wrap character is doubled inside a field)
@@ -154,7 +155,7 @@ Post_BookSetCell(b, s, r, c, t) == [b EXCEPT ![s] = Post_SetCell(b[s], r, c, t)]
 
 SetCell(s, r, c, t) ==
   /\ pc = "build"
-  /\ <<r, c>> \in DOMAIN book[s] \/ CellCount < MaxCells
+  /\ IF <<r, c>> \in DOMAIN book[s] THEN Overwrite ELSE CellCount < MaxCells
   /\ book' = Post_BookSetCell(book, s, r, c, t)
   /\ hist' = Log([a |-> "SetCell", s |-> s, r |-> r, c |-> c, v |-> t])
   /\ UNCHANGED <<active, pc, opt, w, out, ps, enc, bytes>>
